@@ -486,7 +486,19 @@ func (g *gstate) apply(cfg *ipa.IPAConfig, o *gop, e ev, rnd *prg) {
 			}
 		}
 		if o.B > 0 && o.B-1 < n {
+			// the cell that cannot be normalised, in every shape Z = 0 comes in: (x : y : 0), the zero value (0 : 0 : 0), (0 : 1 : 0),
+			// (0 : y : 0), (x : 0 : 0)
 			x, y, _ := banderwagon.VerifCoords(&heap[o.B-1])
+			switch (o.B + n) % 5 {
+			case 1:
+				x, y = fp.Zero(), fp.Zero()
+			case 2:
+				x, y = fp.Zero(), fp.One()
+			case 3:
+				x = fp.Zero()
+			case 4:
+				y = fp.Zero()
+			}
 			heap[o.B-1] = banderwagon.VerifFromCoords(x, y, fp.Zero())
 		}
 		idx := make([]int, n)
@@ -540,8 +552,14 @@ func (g *gstate) apply(cfg *ipa.IPAConfig, o *gop, e ev, rnd *prg) {
 			e["outs"] = out
 		case "Bmap":
 			res := make([]*fr.Element, n)
+			slots := make([]fr.Element, n)
 			for i := range res {
 				res[i] = new(fr.Element)
+				if o.D%2 == 1 || n%2 == 1 {
+					// the same (element, destination) PAIR listed again wherever the pointer list repeats an element: the destination
+					// of a repeated element is one slot (its value is well defined: the map of that element)
+					res[i] = &slots[idx[i]]
+				}
 			}
 			err := banderwagon.BatchMapToScalarField(res, ptrs)
 			e["err"] = err != nil
